@@ -1619,6 +1619,164 @@ func c19r15(c *Ctx, r *Report) {
 	r.floor("prunes under a leading-dot test", n, 1)
 }
 
+// c13r15: the info line shows matched/total; `total` is the size of the snapshot that is searched. The
+// coordinator takes a new snapshot in two places — when the reader reports new items, and when a search request
+// arrives — and in both the count that came with the snapshot has to reach Terminal.UpdateCount before the
+// search is started (D79: the search-request branch replaced the snapshot and kept the old count; followed by a
+// reload-sync the display said `800/500` for the whole reload).
+func c13r15(c *Ctx, r *Report) {
+	l := c.L
+	r.rule("C13-R15", "A (must-pass-through: a new snapshot's count reaches the terminal before the search starts)", "P1",
+		"in Run and its closures, every path from a store of a ChunkList.Snapshot result into the coordinator's snapshot variable to the next call of Matcher.Reset passes Terminal.UpdateCount, or a branch on a comparison of that Snapshot call's count with the count on display",
+		"matched and total counts describe different lists: more matches than lines are shown, persistently during a reload-sync")
+	run := l.Fn("fzf", "Run")
+	snap := l.Fn("fzf", "(*ChunkList).Snapshot")
+	reset := l.Fn("fzf", "(*Matcher).Reset")
+	upd := l.Fn("fzf", "(*Terminal).UpdateCount")
+	if run == nil || snap == nil || reset == nil || upd == nil {
+		r.unest("anchors", token.NoPos, nil, "anchors Run / ChunkList.Snapshot / Matcher.Reset / Terminal.UpdateCount", "cannot resolve")
+		return
+	}
+	n := 0
+	for _, fn := range withClosures(run) {
+		eachInstr(fn, func(in ssa.Instruction) {
+			st, ok := in.(*ssa.Store)
+			if !ok {
+				return
+			}
+			// the stored value is result #0 of a Snapshot call (possibly through a local)
+			var call *ssa.Call
+			for w := range backwardSlice(st.Val, nil, func(x ssa.Value) bool { _, isAlloc := x.(*ssa.Alloc); return isAlloc }) {
+				if ex, ok := w.(*ssa.Extract); ok && ex.Index == 0 {
+					if c2, ok := ex.Tuple.(*ssa.Call); ok && c2.Common().StaticCallee() == snap {
+						call = c2
+					}
+				}
+			}
+			if call == nil {
+				return
+			}
+			// only stores into the long-lived snapshot variable (a captured cell), not into the temporaries
+			if _, isFree := st.Addr.(*ssa.FreeVar); !isFree {
+				return
+			}
+			if _, isSlice := deref(st.Addr.Type()).Underlying().(*types.Slice); !isSlice {
+				return
+			}
+			n++
+			var cnt ssa.Value
+			if call.Referrers() != nil {
+				for _, ref := range *call.Referrers() {
+					if ex, ok := ref.(*ssa.Extract); ok && ex.Index == 1 {
+						cnt = ex
+					}
+				}
+			}
+			handled := func(i ssa.Instruction) bool {
+				if staticCallee(i) == upd {
+					return true
+				}
+				iff, ok := i.(*ssa.If)
+				if !ok || cnt == nil {
+					return false
+				}
+				for w := range backwardSlice(iff.Cond, nil, nil) {
+					if w == cnt {
+						return true
+					}
+				}
+				return false
+			}
+			hit := pathAvoiding(st, func(i ssa.Instruction) bool { return staticCallee(i) == reset }, handled, nil)
+			r.check(hit == nil, fmt.Sprintf("%s:new snapshot #%d brings its count along", relName(run), n), st.Pos(), fn,
+				"UpdateCount (or a test that the count is unchanged) precedes the search", "the snapshot is replaced and the search is started while the terminal still shows the count of the old snapshot")
+		})
+	}
+	r.floor("places where the coordinator takes a new snapshot", n, 2)
+}
+
+// c13r16: change-nth and exclude do not change the input, so the coordinator only bumps the MINOR revision —
+// that is what makes the matcher drop the mergers it cached per query string. The revision the matcher gets is
+// the one of the snapshot being searched; when the coordinator keeps its snapshot (during a reload-sync, or when
+// a reload has not delivered anything yet) that revision has to move as well (D80: it did not: during a
+// reload-sync, `change-nth(2)` followed by a query that had been searched under nth=1 republished the old result).
+func c13r16(c *Ctx, r *Report) {
+	l := c.L
+	r.rule("C13-R16", "A (must-pass-through: a minor bump of the input revision reaches the revision handed to the matcher)", "P1",
+		"in Run's event callback, every path from a bumpMinor of the input revision that is not caused by a new snapshot (the nth / exclusion block) to Matcher.Reset passes a bumpMinor of, or an assignment to, the snapshot revision",
+		"during reload-sync a change of --nth or an exclusion is ignored for every query that was searched before: the published result is that of an earlier search with other parameters")
+	run := l.Fn("fzf", "Run")
+	reset := l.Fn("fzf", "(*Matcher).Reset")
+	bm := l.Fn("fzf", "(*revision).bumpMinor")
+	if run == nil || reset == nil || bm == nil {
+		r.unest("anchors", token.NoPos, nil, "anchors Run / Matcher.Reset / revision.bumpMinor", "cannot resolve")
+		return
+	}
+	// the two revision cells of Run: the one passed to Reset is the snapshot revision; the other one that is bumped is the input revision
+	n := 0
+	cc := cdCache{}
+	for _, fn := range withClosures(run) {
+		var resets []*ssa.Call
+		eachInstr(fn, func(in ssa.Instruction) {
+			if call, ok := in.(*ssa.Call); ok && call.Common().StaticCallee() == reset {
+				resets = append(resets, call)
+			}
+		})
+		if len(resets) == 0 {
+			continue
+		}
+		cellOfArg := func(v ssa.Value) ssa.Value {
+			if u, ok := v.(*ssa.UnOp); ok && u.Op == token.MUL {
+				return u.X
+			}
+			return nil
+		}
+		snapCell := cellOfArg(resets[0].Call.Args[len(resets[0].Call.Args)-1])
+		if snapCell == nil {
+			r.unest(relName(run)+":snapshot revision", fn.Pos(), fn, "the variable handed to Matcher.Reset as revision", "not a plain variable")
+			return
+		}
+		eachInstr(fn, func(in ssa.Instruction) {
+			call, ok := in.(*ssa.Call)
+			if !ok || call.Common().StaticCallee() != bm {
+				return
+			}
+			recv := call.Call.Args[0]
+			if recv == snapCell {
+				return
+			}
+			// bumps that follow a Snapshot call (`if changed { bumpMinor }`) are about a new snapshot, whose revision is assigned right after
+			aboutSnapshot := false
+			for cond := range cc.of(in) {
+				for w := range backwardSlice(cond, nil, nil) {
+					if ex, ok := w.(*ssa.Extract); ok {
+						if c2, ok := ex.Tuple.(*ssa.Call); ok && c2.Common().StaticCallee() != nil && c2.Common().StaticCallee().Name() == "Snapshot" {
+							aboutSnapshot = true
+						}
+					}
+				}
+			}
+			if aboutSnapshot {
+				return
+			}
+			n++
+			touches := func(i ssa.Instruction) bool {
+				if st, ok := i.(*ssa.Store); ok && st.Addr == snapCell {
+					return true
+				}
+				if c2, ok := i.(*ssa.Call); ok && c2.Common().StaticCallee() == bm && c2.Call.Args[0] == snapCell {
+					return true
+				}
+				return false
+			}
+			hit := pathAvoiding(in, func(i ssa.Instruction) bool { return staticCallee(i) == reset }, touches, nil)
+			r.check(hit == nil, fmt.Sprintf("%s:minor bump #%d of the input revision reaches the matcher", relName(run), n), call.Pos(), fn,
+				"the snapshot revision moves on every path to Matcher.Reset", "the input revision is bumped and Matcher.Reset can be reached with the snapshot revision unchanged: cached mergers of the old parameters are served")
+		})
+	}
+	r.floor("minor bumps of the input revision in Run that are not about a new snapshot", n, 1)
+}
+
 // round9 runs the round-9 rules of a property (own and shared).
 func round9(c *Ctx, r *Report, prop string) {
 	switch prop {
@@ -1641,6 +1799,7 @@ func round9(c *Ctx, r *Report, prop string) {
 		c06r11(c, r) // the non-streaming filter prints after the input has ended
 		c09r17(c, r)
 	case "C08":
+		c13r16(c, r)
 		c08r22(c, r)
 		c08r23(c, r)
 		c13r12(c, r)
@@ -1649,9 +1808,12 @@ func round9(c *Ctx, r *Report, prop string) {
 		c09r18(c, r)
 		c04r14(c, r) // the position under the cursor designates the item that is accepted
 	case "C10":
+		c13r16(c, r) // change-nth takes effect also while a reload-sync is in progress
 		c10r11(c, r)
 		c10r12(c, r)
 	case "C13":
+		c13r16(c, r)
+		c13r15(c, r)
 		c13r12(c, r)
 		c13r13(c, r)
 		c13r14(c, r)
